@@ -580,41 +580,39 @@ func (fr *Frame) inline(callee *ssa.Function, args, bindings []*Value, rt types.
 
 func (fr *Frame) bindNames(fn *ssa.Function, sig *types.Signature, fc *FuncContract, args []*Value, invoke bool) map[string]*Value {
 	vars := map[string]*Value{}
+	hasRecv := invoke || (sig != nil && sig.Recv() != nil)
 	if fn != nil && len(fn.Params) == len(args) {
 		for i, p := range fn.Params {
 			vars[p.Name()] = args[i]
 		}
+	} else if sig != nil {
+		off := 0
+		if hasRecv {
+			off = 1
+		}
+		for i := 0; i < sig.Params().Len() && i+off < len(args); i++ {
+			if n := sig.Params().At(i).Name(); n != "" && n != "_" {
+				vars[n] = args[i+off]
+			}
+		}
+	}
+	if hasRecv && len(args) > 0 {
+		if fc.RecvName != "" {
+			vars[fc.RecvName] = args[0]
+		}
+		if _, ok := vars["recv"]; !ok {
+			vars["recv"] = args[0]
+		}
 	}
 	// names given in the contract header (externs, interface methods)
-	if len(fc.Params) > 0 && len(fc.Params) == len(args) {
+	switch {
+	case len(fc.Params) == len(args):
 		for i, p := range fc.Params {
 			vars[p.Name] = args[i]
 		}
-	} else if sig != nil {
-		off := 0
-		if sig.Recv() != nil || invoke {
-			if len(fc.Params) > 0 && len(fc.Params) == len(args) {
-			} else if len(fc.Params) > 0 && len(fc.Params)+1 == len(args) {
-				off = 1
-				for i, p := range fc.Params {
-					vars[p.Name] = args[i+1]
-				}
-			}
-			if len(args) > 0 {
-				if _, ok := vars["recv"]; !ok {
-					vars["recv"] = args[0]
-				}
-			}
-			if off == 0 {
-				off = 1
-			}
-		}
-		for i := 0; i < sig.Params().Len() && i+off < len(args)+0; i++ {
-			if n := sig.Params().At(i).Name(); n != "" && n != "_" {
-				if _, ok := vars[n]; !ok && i+off < len(args) {
-					vars[n] = args[i+off]
-				}
-			}
+	case hasRecv && len(fc.Params)+1 == len(args):
+		for i, p := range fc.Params {
+			vars[p.Name] = args[i+1]
 		}
 	}
 	return vars
